@@ -30,6 +30,7 @@ var Dict = []string{
 	"1.0.0.0.0.0.0.0.0.0.0.0.0.0.0.0.0.0.0.0.0.0.0.0.0.0.0.0.0.0.0.0.ip6.arpa",
 	"1.0.0.0.0.0.0.0.0.0.0.0.0.0.0.0.0.0.0.0.0.0.0.0.0.0.0.0.0.0.0.0.0.ip6.arpa",
 	"example.com", "example.com.", "EXAMPLE.COM", "-a.com", "a-.com", "a..com", "_srv._tcp.example.com",
+	"3com.xn--4dbrk0ce", "_sip._tcp.1and1.xn--4dbrk0ce", "9gag.xn--mgbh0fb.example", "3com.ישראל", "1.مصر", "a.א1.b",
 	"xn--", "xn--a", "xn--p1ai", "XN--P1AI", "xn--a-", "xn--xn--a--", "a.xn--com-", "4.3.2.1.xn--in-addr-.arpa", "4.3.2.1.in-addr.xn--arpa-", "xn--4-.3.2.1.in-addr.arpa", "XN--0.com", "Xn--abc-.com",
 	"1.2.3.4:8\U00010030", "1.2.3.\U00010034", "1.2.3.4\u0130", "[::1]:\u0138\u0130", "пример.рф", "123", "a.123", "1.2.3.4.5",
 	strings.Repeat("a", 63), strings.Repeat("a", 64), strings.Repeat("a", 63) + ".com",
@@ -132,8 +133,8 @@ var (
 		c := rapid.SampledFrom([]string{"a", "7", "x"}).Draw(t, "c")
 		return strings.Repeat(c, n)
 	})
-	labHyphen = rapid.SampledFrom([]string{"-", "-a", "a-", "a-b", "a--b", "-a-", "--", "a-1", "1-a", "xn--a", "xn--", "xn--p1ai", "XN--P1AI", "xn--80akhbyknj4f", "xn--zz-zz"})
-	labIDN    = rapid.SampledFrom([]string{"пример", "рф", "例え", "ß", "İ", "K", "é", "straße", "ǆ", "‍", "a‍b", "ａ", "１", "a。b", "\xff", "a\xffb", "\xc3\x28", "a b", "a#b", "a\tb", "a\x00", "*", "a_b", "_", "__a", "_-a", "_a-", "é́"})
+	labHyphen = rapid.SampledFrom([]string{"-", "-a", "a-", "a-b", "a--b", "-a-", "--", "a-1", "1-a", "xn--a", "xn--", "xn--p1ai", "XN--P1AI", "xn--80akhbyknj4f", "xn--zz-zz", "xn--4dbrk0ce", "xn--mgbh0fb", "xn--ngbc5azd", "xn--fiqs8s", "xn--mgberp4a5d4ar", "XN--4DBRK0CE"})
+	labIDN    = rapid.SampledFrom([]string{"ישראל", "مصر", "السعودية", "א1", "1א", "aא", "א-", "١٢", "пример", "рф", "例え", "ß", "İ", "K", "é", "straße", "ǆ", "‍", "a‍b", "ａ", "１", "a。b", "\xff", "a\xffb", "\xc3\x28", "a b", "a#b", "a\tb", "a\x00", "*", "a_b", "_", "__a", "_-a", "_a-", "é́"})
 	labAny    = rapid.StringN(0, 6, -1)
 
 	// Label generates one label of any class.
@@ -152,9 +153,9 @@ var validName = rapid.Custom(func(t *rapid.T) string {
 	n := rapid.IntRange(0, 5).Draw(t, "n")
 	parts := make([]string, 0, n+1)
 	for i := 0; i < n; i++ {
-		parts = append(parts, rapid.OneOf(labLDH, labLDH, labUnder, labDigits, rapid.SampledFrom([]string{"пример", "例え", "ß", "xn--p1ai", strings.Repeat("a", 63)})).Draw(t, "l"))
+		parts = append(parts, rapid.OneOf(labLDH, labLDH, labUnder, labDigits, rapid.SampledFrom([]string{"пример", "例え", "ß", "xn--p1ai", strings.Repeat("a", 63), "xn--4dbrk0ce", "xn--mgbh0fb", "ישראל", "مصر", "3com", "1and1", "9", "_sip", "a-1"})).Draw(t, "l"))
 	}
-	parts = append(parts, rapid.OneOf(rapid.StringMatching(`[a-z]{1,6}`), rapid.SampledFrom([]string{"com", "a1", "1a", "c", "рф", "xn--p1ai", "a-b"})).Draw(t, "tld"))
+	parts = append(parts, rapid.OneOf(rapid.StringMatching(`[a-z]{1,6}`), rapid.SampledFrom([]string{"com", "a1", "1a", "c", "рф", "xn--p1ai", "a-b", "xn--4dbrk0ce", "xn--mgbh0fb", "ישראל", "مصر"})).Draw(t, "tld"))
 	return strings.Join(parts, ".")
 })
 
